@@ -74,6 +74,13 @@ var c10Roots = []struct {
 		Arr2  [2]*futil2.Dur
 	}]()},
 	{"[]*string", reflect.TypeFor[[]*string]()},
+	{"struct{Min, Max *int; A, B *string}", reflect.TypeFor[struct {
+		Min, Max *int
+		A, B     *string
+		N1, N2   *futil.Name
+	}]()},
+	{"[]*bool", reflect.TypeFor[[]*bool]()},
+	{"[3]*int", reflect.TypeFor[[3]*int]()},
 	{"map[string]mix.Doc", reflect.TypeFor[map[string]fmix.Doc]()},
 	{"[]mix.Doc", reflect.TypeFor[[]fmix.Doc]()},
 	// entries whose literals mention, first, one or the other of two packages that want the same local name
@@ -189,12 +196,28 @@ func fillValue(r *Rng, t reflect.Type, depth int) reflect.Value {
 				v.Field(i).Set(fillValue(r, t.Field(i).Type, depth-1))
 			}
 		}
+		// two pointer fields of one type sharing one pointer
+		for i := 0; i < t.NumField(); i++ {
+			for j := i + 1; j < t.NumField(); j++ {
+				if t.Field(i).IsExported() && t.Field(j).IsExported() && t.Field(i).Type.Kind() == reflect.Ptr && t.Field(i).Type == t.Field(j).Type && !v.Field(i).IsNil() && r.Chance(35) {
+					v.Field(j).Set(v.Field(i))
+				}
+			}
+		}
 	case reflect.Slice:
 		if depth > 0 {
 			n := r.Intn(3)
 			s := reflect.MakeSlice(t, n, n)
 			for i := 0; i < n; i++ {
 				s.Index(i).Set(fillValue(r, t.Elem(), depth-1))
+			}
+			if t.Elem().Kind() == reflect.Ptr && n >= 2 && r.Chance(40) {
+				// one and the same pointer in several positions: what it points to is rendered at each of them
+				for i := 1; i < n; i++ {
+					if r.Chance(70) {
+						s.Index(i).Set(s.Index(0))
+					}
+				}
 			}
 			if n > 0 || r.Bool() {
 				v.Set(s) // sometimes an empty non-nil slice
@@ -203,6 +226,11 @@ func fillValue(r *Rng, t reflect.Type, depth int) reflect.Value {
 	case reflect.Array:
 		for i := 0; i < t.Len(); i++ {
 			v.Index(i).Set(fillValue(r, t.Elem(), depth-1))
+		}
+		if t.Elem().Kind() == reflect.Ptr && t.Len() >= 2 && r.Chance(40) {
+			for i := 1; i < t.Len(); i++ {
+				v.Index(i).Set(v.Index(0))
+			}
 		}
 	case reflect.Map:
 		if depth > 0 {
@@ -830,7 +858,7 @@ func init() {
 				return &vlitCase{Root: r.Intn(len(c10Roots)), Seed: r.U64(), Depth: 1 + r.Intn(4)}
 			},
 			ShrinkBudget: 6, MaxShrinks: 5,
-			Rule: "random values (depth ≤ 4) of 46 root types (maps keyed by bool, float64, int32, uint8, a named string, [2]int and a struct among them, nested maps, slices of slices, arrays of arrays) (one of them holding composites that differ only below a pointer side by side) built with reflect around fixture named types of three packages, time.Duration and an unnamed struct type: structs with exported and unexported fields, single-level pointers to scalars / strings / named scalars / structs (zero ones included), slices, arrays, maps with string / int / named keys, strings with quotes, newlines, backquotes, NUL and non-UTF-8 bytes, extreme integers, runes, float32/float64 edge values; rendered with snippet.Value through a real writer, then six more times through fresh writers (same bytes, same import names: map order must not show); compared with the model byte for byte (leaf literals and type texts supplied); oracle: every literal parses as a Go expression, and a sample (quick: 300, thorough: all) is compiled as `var vN T = <literal>` with the registered imports and run, canon.Value of the result compared with canon.Value of the original (nil = empty, omitted fields zero)",
+			Rule: "random values (depth ≤ 4) of 49 root types (maps keyed by bool, float64, int32, uint8, a named string, [2]int and a struct among them, nested maps, slices of slices, arrays of arrays) (one of them holding composites that differ only below a pointer side by side) built with reflect around fixture named types of three packages, time.Duration and an unnamed struct type: structs with exported and unexported fields, single-level pointers to scalars / strings / named scalars / structs (zero ones included; sometimes one and the same pointer in several elements of a slice or array, or in two fields), slices, arrays, maps with string / int / named keys, strings with quotes, newlines, backquotes, NUL and non-UTF-8 bytes, extreme integers, runes, float32/float64 edge values; rendered with snippet.Value through a real writer, then six more times through fresh writers (same bytes, same import names: map order must not show); compared with the model byte for byte (leaf literals and type texts supplied); oracle: every literal parses as a Go expression, and a sample (quick: 300, thorough: all) is compiled as `var vN T = <literal>` with the registered imports and run, canon.Value of the result compared with canon.Value of the original (nil = empty, omitted fields zero)",
 		}
 		return st
 	}
